@@ -26,6 +26,12 @@ pub fn messages(seed: u64) -> Vec<Message<'static>> {
             v.push(Message::SendData(Offset(off), Data::try_new(fill(l, off as u64, seed)).unwrap()));
         }
     }
+    // every data length once (the frame length field and the write loop see every size)
+    for l in 0..=255usize {
+        if ![0usize, 1, 2, 16, 255].contains(&l) {
+            v.push(Message::SendData(Offset(0x0100 + l as u16), Data::try_new(fill(l, 77, seed)).unwrap()));
+        }
+    }
     for c in [0u16, 1, 6, 65535] {
         v.push(Message::DataChunksSent(ChunkCount(c)));
     }
@@ -226,7 +232,7 @@ fn case_json(m: &Message<'static>, line: &[u8], sentinel: bool, rs: &[RAns], ws:
 pub fn run(ctx: &Ctx) -> Report {
     let mut rep = Report::new(ctx);
     let thorough = ctx.tier.thorough();
-    rep.rule = "every message of the list (SendData offsets x lengths incl. 0 and 255, counts, hello/query/goodbye/pixels-complete x 5 addresses, 13 reports, 6 requests, 6 acks, 6 unknown frames incl. types 2 and 3) \
+    rep.rule = "every message of the list (SendData 4 offsets x lengths {0,1,2,16,255} and every other length 0..=255 once, counts, hello/query/goodbye/pixels-complete x 5 addresses, 13 reports, 6 requests, 6 acks, 6 unknown frames incl. types 2 and 3) \
                 x every reply line (13 reports, 6 acks, foreign report, other kinds, lower case, malformed of 8 sorts, empty) followed by a sentinel line; plus a hard error / Ok(0) / short accepts at every write call index, \
                 a hard error / timeout / Ok(0) / interrupts at every read call index. Each run is one real process_message on a real SerialSignBus over a scripted port (virtual clock). \
                 Non-trivial = runs where a reply is due or a fault is injected; distinct by (message, line, scripts)"
